@@ -40,7 +40,10 @@ def _files(root):
 
 
 def apply(spec, root):
-    fn = globals()['_t_' + spec['id'][2:].replace('-', '_')]
+    if 'inline' in spec:
+        fn = lambda tree, name: _inline_helper(tree, *spec['inline'])
+    else:
+        fn = globals()['_t_' + spec['id'][2:].replace('-', '_')]
     n = 0
     for p in _files(root):
         src = open(p).read()
@@ -525,3 +528,144 @@ def _t_comprehension_to_loop(tree, fn):
             f.body = _comp_to_loop(f.body, counter)
     ast.fix_missing_locations(tree)
     return counter[0]
+
+
+# ---------------------------------------------------------------------------
+# mechanical inlining of a private helper that is called exactly once
+INLINE = [
+    ('FileBuilder', '_assert_build_file_call_valid'),
+    ('FileBuilder', '_prepare_file_creation'),
+    ('FileBuilder', '_handle_error_building_file'),
+    # not in the corpus: _commit, _roll_back, _rebuild_file, _subbuild,
+    # _build, _set_created_dirs are role-bearing anchors - inlining one
+    # makes the checks that need the role inconclusive (exit 2) by design
+    ('SimpleOperationExecutor', '_assert_exists'),
+    ('SimpleOperationExecutor', '_assert_is_dir'),
+    ('SimpleOperationExecutor', '_file_metadata'),
+    ('Cache', '_simple_operation_to_json'),
+    ('Cache', '_complex_operation_to_json'),
+]
+for _c, _h in INLINE:
+    SILENT.append({'id': 'S-inline-%s.%s' % (_c, _h),
+                   'what': 'inline the single-use private helper %s.%s into '
+                   'its caller (parameters bound to temporaries, locals '
+                   'renamed, self replaced by the receiver)' % (_c, _h),
+                   'inline': (_c, _h)})
+
+
+def _inline_helper(tree, cname, hname):
+    cls = next((c for c in ast.walk(tree) if isinstance(c, ast.ClassDef)
+                and c.name == cname), None)
+    if cls is None:
+        return 0
+    callee = next((m for m in cls.body if isinstance(m, ast.FunctionDef)
+                   and m.name == hname), None)
+    if callee is None:
+        return 0
+    is_static = any(isinstance(d, ast.Name) and d.id == 'staticmethod'
+                    for d in callee.decorator_list)
+    body = [b for b in callee.body if not (
+        isinstance(b, ast.Expr) and isinstance(b.value, ast.Constant) and
+        isinstance(b.value.value, str))]
+    rets = [n for n in ast.walk(callee) if isinstance(n, ast.Return)]
+    if any(r is not body[-1] for r in rets):
+        return 0
+    final = body[-1].value if body and isinstance(body[-1], ast.Return) \
+        else None
+    if body and isinstance(body[-1], ast.Return):
+        body = body[:-1]
+    params = [a.arg for a in callee.args.args]
+    defaults = dict(zip(params[len(params) - len(callee.args.defaults):],
+                        callee.args.defaults))
+    self_name = None if is_static else params[0]
+    pnames = params if is_static else params[1:]
+    # the one call site
+    sites = []
+    for f in ast.walk(tree):
+        if not isinstance(f, ast.FunctionDef) or f is callee:
+            continue
+        for n in ast.walk(f):
+            if isinstance(n, ast.Call) and isinstance(
+                    n.func, ast.Attribute) and n.func.attr == hname:
+                sites.append((f, n))
+    if len(sites) != 1:
+        return 0
+    caller, call = sites[0]
+    recv = call.func.value
+    stores = {x.id for x in ast.walk(callee) if isinstance(x, ast.Name) and
+              isinstance(x.ctx, (ast.Store, ast.Del))}
+    stores |= {h.name for h in ast.walk(callee)
+               if isinstance(h, ast.ExceptHandler) and h.name}
+    ren = {n: '_i_' + n for n in stores | set(pnames)}
+
+    def rn(node):
+        node = copy.deepcopy(node)
+        for x in ast.walk(node):
+            if isinstance(x, ast.Name):
+                if self_name and x.id == self_name:
+                    if isinstance(recv, ast.Name):
+                        x.id = recv.id
+                    else:
+                        x.id = '_i_self'
+                elif x.id in ren:
+                    x.id = ren[x.id]
+            elif isinstance(x, ast.ExceptHandler) and x.name in ren:
+                x.name = ren[x.name]
+        return node
+    pre = []
+    if self_name and not isinstance(recv, ast.Name):
+        pre.append(ast.Assign(targets=[ast.Name(id='_i_self',
+                                                ctx=ast.Store())],
+                              value=recv, lineno=call.lineno))
+    bound = {}
+    for pn, a in zip(pnames, call.args):
+        bound[pn] = a
+    for kw in call.keywords:
+        bound[kw.arg] = kw.value
+    for pn in pnames:
+        v = bound.get(pn, defaults.get(pn))
+        if v is None:
+            return 0
+        pre.append(ast.Assign(targets=[ast.Name(id=ren[pn],
+                                                ctx=ast.Store())],
+                              value=v, lineno=call.lineno))
+    new_body = pre + [rn(b) for b in body]
+    fin = rn(final) if final is not None else None
+
+    class R(ast.NodeTransformer):
+        done = 0
+
+        def generic_stmt(self, st):
+            return st
+
+        def visit_Expr(self, st):
+            if st.value is call:
+                self.done = 1
+                extra = [ast.Expr(value=fin)] if fin is not None and \
+                    not isinstance(fin, (ast.Name, ast.Constant)) else []
+                return new_body + extra
+            return st
+
+        def visit_Assign(self, st):
+            if st.value is call:
+                self.done = 1
+                return new_body + [ast.Assign(
+                    targets=st.targets,
+                    value=fin if fin is not None else ast.Constant(
+                        value=None), lineno=st.lineno)]
+            return st
+
+        def visit_Return(self, st):
+            if st.value is call:
+                self.done = 1
+                return new_body + [ast.Return(value=fin)]
+            return st
+    r = R()
+    caller.body = [x for b in caller.body
+                   for x in (lambda v: v if isinstance(v, list) else [v])(
+                       r.visit(b))]
+    if not r.done:
+        return 0
+    cls.body.remove(callee)
+    ast.fix_missing_locations(tree)
+    return 1
